@@ -173,21 +173,26 @@ def cases(rng, big):
             yield f"relabel:{nm}({avg})", lambda f=f, avg=avg: same(val(lambda: f(pc, tg, num_classes=C, average=avg)), val(lambda: f(pt[pc], pt[tg], num_classes=C, average=avg)))
     yield "relabel:multiclass_confusion_matrix", lambda: same(val(lambda: F.multiclass_confusion_matrix(pc, tg, num_classes=C)),
                                                               val(lambda: F.multiclass_confusion_matrix(pt[pc], pt[tg], num_classes=C)[pt][:, pt]))
-    # many classes with labels stored in a narrow integer dtype (index arithmetic in the label dtype must not wrap)
+    # many classes with labels stored in a narrow integer dtype (index arithmetic in the label dtype must not wrap);
+    # predictions as a score matrix (label-form uint8 predictions are rejected by sparse_coo_tensor: not a disagreement)
     C2 = rng.choice([17, 20, 40, 100])
     m2 = min(n, 200)
-    pc2 = torch.tensor([rng.randrange(C2) for _ in range(m2)], dtype=torch.uint8)
+    sc2 = torch.tensor([rng.sample(range(0, 4 * C2), C2) for _ in range(m2)], dtype=torch.float32) / (4 * C2)     # tie-free rows
     tg2 = torch.tensor([rng.randrange(C2) for _ in range(m2)], dtype=torch.uint8)
     perm2 = list(range(C2))
     rng.shuffle(perm2)
-    pt2 = torch.tensor(perm2, dtype=torch.uint8)
-    pl2 = pt2.long()
+    pl2 = torch.tensor(perm2)
+    inv2 = torch.argsort(pl2)
     yield "relabel[uint8 labels]:multiclass_confusion_matrix", lambda: same(
-        val(lambda: F.multiclass_confusion_matrix(pc2, tg2, num_classes=C2)),
-        val(lambda: F.multiclass_confusion_matrix(pt2[pc2.long()], pt2[tg2.long()], num_classes=C2)[pl2][:, pl2]))
-    yield "dtype[uint8 vs int64 labels]:multiclass_confusion_matrix", lambda: same(
-        val(lambda: F.multiclass_confusion_matrix(pc2, tg2, num_classes=C2)),
-        val(lambda: F.multiclass_confusion_matrix(pc2.long(), tg2.long(), num_classes=C2)))
+        val(lambda: F.multiclass_confusion_matrix(sc2, tg2, num_classes=C2)),
+        val(lambda: F.multiclass_confusion_matrix(sc2[:, inv2], pl2[tg2.long()].to(torch.uint8), num_classes=C2)[pl2][:, pl2]))
+
+    def narrow_vs_wide():
+        a = val(lambda: F.multiclass_confusion_matrix(sc2, tg2, num_classes=C2))
+        if isinstance(a, T) and a.tag == "err":
+            return None                      # the code may refuse a label dtype; it must not miscount when it accepts it
+        return same(a, val(lambda: F.multiclass_confusion_matrix(sc2, tg2.long(), num_classes=C2)))
+    yield "dtype[uint8 vs int64 labels]:multiclass_confusion_matrix", narrow_vs_wide
     yield "relabel:logits:multiclass_accuracy", lambda: same(val(lambda: F.multiclass_accuracy(scd, tg, num_classes=C)), val(lambda: F.multiclass_accuracy(scd[:, inv], pt[tg], num_classes=C)))
 
 
